@@ -10,6 +10,8 @@ import (
 	"github.com/cosmos/cosmos-sdk/x/params"
 	paramproposal "github.com/cosmos/cosmos-sdk/x/params/types/proposal"
 	"math/big"
+	"os"
+	"runtime/debug"
 	"sort"
 	"strconv"
 	"strings"
@@ -174,6 +176,11 @@ func (e *stubEvm) CallEVM(ctx sdk.Context, _ abi.ABI, from, contract common.Addr
 			if crypto.CreateAddress(common.BytesToAddress(stypes.GetTenantTreasuryAccount(t.Id)), 0) == contract {
 				denom = fmt.Sprintf("sbt/auto.%d", t.Id)
 			}
+		}
+		// a token contract reverts when its total supply would pass 2^256 (checked arithmetic); the bank that stands in for it here
+		// would panic instead
+		if sup := e.w.A.BankKeeper.GetSupply(ctx, denom).Amount.BigInt(); new(big.Int).Add(sup, amt).BitLen() > 256 {
+			return nil, fmt.Errorf("execution reverted: arithmetic overflow")
 		}
 		coins := sdk.NewCoins(sdk.NewCoin(denom, math.NewIntFromBigInt(amt)))
 		if err := e.w.A.BankKeeper.MintCoins(ctx, erc20types.ModuleName, coins); err != nil {
@@ -756,6 +763,22 @@ func (w *World) exec(line string) Result {
 		w.unbondingNext = f[3] == "2" // "2": not bonded, in its unbonding period
 		w.setVal(f[1], int64(u64(f[2])), f[3] == "1", f[4] == "1", f[5])
 		return Result{Line: "ok"}
+	case "jail": // v : the staking module jails the validator (what the slashing module does for downtime or a double sign); it leaves
+		// the active set at once. Application-level engine only.
+		if !w.Real {
+			return Result{Line: "bad-op"}
+		}
+		i, _ := strconv.Atoi(f[1][1:])
+		ctx := w.at()
+		val, ok := w.A.StakingKeeper.GetValidator(ctx, w.Vals[i])
+		if !ok || val.IsJailed() {
+			return Result{Line: "err"}
+		}
+		cons, err := val.GetConsAddr()
+		must(err)
+		w.A.StakingKeeper.Jail(ctx, cons)
+		w.A.StakingKeeper.BlockValidatorUpdates(ctx)
+		return Result{Line: "ok"}
 	case "atomic": // msg ;; msg ;; ... : one transaction of several messages, executed the way baseapp does (one branch, all or nothing)
 		return w.atomic(strings.Split(strings.TrimPrefix(line, "atomic "), " ;; "))
 	case "failat": // k : fail the k-th backend call of the next block
@@ -953,6 +976,9 @@ func (w *World) block() (res Result) {
 		ff.armed = false
 		if p := recover(); p != nil {
 			res = Result{Line: "panic", Detail: fmt.Sprint(p), Panic: true}
+			if os.Getenv("VERIF_STACK") != "" {
+				res.Detail += "\n" + string(debug.Stack())
+			}
 			w.Height++
 			res.Dump = w.Dump()
 		}
